@@ -204,7 +204,10 @@ func runCase(c *Case, keepLog bool, tapes [][]int, sub string) (*childResult, *c
 }
 
 func wallLimitFor(sc *scen.Scenario) time.Duration {
-	return 180 * time.Second
+	if sc != nil && sc.Extra != nil && sc.Extra["footprint"] != "" {
+		return 240 * time.Second
+	}
+	return 75 * time.Second
 }
 
 // violationsOf extracts the violations that count for prop from a case's results.
@@ -436,6 +439,9 @@ func reportViolation(prop string, f found) string {
 			return true
 		}
 		return false
+	}
+	if strings.HasPrefix(f.v.Signature, "crash:spin") {
+		budget = time.Now() // every re-execution of a hang costs the whole wall-clock limit: report it as found
 	}
 	if tape != nil || f.res.crashed {
 		// 1. all-zero schedule (FIFO-like)
